@@ -24,6 +24,7 @@ type DexPlan struct {
 	Users   []int
 	T       *dexTracker
 	JumpW   int
+	Drip    okey // order currently being filled piecewise by genCluster's drip mode (generator state only)
 	GaugeW  int
 	MagUnit sdk.Int
 }
@@ -61,6 +62,7 @@ func drawDexConfig(r *Rng, cfg *Config) {
 	k["gauge_w"] = []int64{0, 1, 2}[r.Intn(3)]
 	k["n_gauges"] = r.Range(0, 2)
 	k["fee_asset_traded"] = int64(r.Intn(2))
+	k["bare_pairs"] = []int64{0, 0, 1, 1, 2}[r.Intn(5)] // pairs without any pool: pure order book, orders rest and fill piecewise
 }
 
 func (w *World) dexParams(app uint64) liqtypes.GenericParams {
@@ -222,6 +224,10 @@ func setupDex(w *World) {
 	nRanged := int(cfg.K("n_ranged"))
 	for i := len(pairs) - 1; i >= 0; i-- {
 		pr := pairs[i]
+		if bare := cfg.K("bare_pairs"); bare == 3 || (len(pairs) >= 2 && ((bare == 1 && i == 0) || (bare == 2 && i != len(pairs)-1))) {
+			w.Stats.Probe("dex.setup_bare_pair")
+			continue
+		}
 		a := creator()
 		// reserves: y base units, x = price * y quote units
 		y := p.MagUnit.MulRaw(r.Range(1, 50)).QuoRaw(10)
@@ -960,6 +966,9 @@ func dexGens(w *World) []OpGen {
 	return []OpGen{
 		{"order.limit", 30 * ob, func(w *World, r *Rng) *Event { return w.genLimit(r) }},
 		{"order.market", 8 * ob, func(w *World, r *Rng) *Event { return w.genMarket(r) }},
+		{"order.cluster", 8 * ob, func(w *World, r *Rng) *Event { return w.genCluster(r) }},
+		{"order.burst", 3 * ob * (1 + int(w.Cfg.K("burst_boost"))), func(w *World, r *Rng) *Event { return w.genBurst(r) }},
+		{"order.ladder", 3 * ob * (1 + int(w.Cfg.K("ladder_boost"))), func(w *World, r *Rng) *Event { return w.genLadder(r) }},
 		{"order.mm", 7 * ob, func(w *World, r *Rng) *Event { return w.genMM(r) }},
 		{"order.cancel", 8 * ob, func(w *World, r *Rng) *Event { return w.genCancel(r) }},
 		{"order.cancel_all", 2 * ob, func(w *World, r *Rng) *Event { return w.genCancelAll(r) }},
@@ -994,7 +1003,15 @@ func dexGens(w *World) []OpGen {
 			var denoms []string
 			pools := w.dexPools()
 			pairs := w.dexPairs()
-			switch r.Intn(5) {
+			switch r.Intn(6) {
+			case 5:
+				// the pair's swap-fee collector: its coins are converted by the block hook every 150 blocks
+				if len(pairs) == 0 {
+					return nil
+				}
+				pr := pairs[r.Intn(len(pairs))]
+				to = pr.GetSwapFeeCollectorAddress()
+				denoms = []string{pr.BaseCoinDenom, pr.QuoteCoinDenom}
 			case 0:
 				to = liqtypes.GlobalEscrowAddress
 			case 1:
@@ -1051,4 +1068,291 @@ func init() {
 		Gens:   dexGens,
 		PBlock: 230,
 	}
+}
+
+// genCluster builds the order-book shapes the pro-rata distribution is sensitive to: several orders at exactly the same
+// tick on one side, among them "dust" remainders (open amount of a few units left over from an almost complete fill),
+// met by an opposing order that fills the tick only partially.
+func (w *World) genCluster(r *Rng) *Event {
+	ctx := w.Ctx()
+	pairs := w.dexPairs()
+	if len(pairs) == 0 {
+		return nil
+	}
+	pair := pairs[r.Intn(len(pairs))]
+	var live []liqtypes.Order
+	for _, o := range w.App.LiquidityKeeper.GetOrdersByPair(ctx, pair.AppId, pair.Id) {
+		if liveStatus(o.Status) && o.Type == liqtypes.OrderTypeLimit && o.OpenAmount.GTE(sdk.NewInt(2)) {
+			live = append(live, o)
+		}
+	}
+	if len(live) == 0 {
+		return nil
+	}
+	o := live[r.Intn(len(live))]
+	drip := false
+	if w.Dex.Drip.id != 0 && r.Intn(3) != 0 {
+		for _, x := range live {
+			if x.Id == w.Dex.Drip.id && pair.AppId == w.Dex.Drip.app && pair.Id == w.Dex.Drip.pair {
+				o, drip = x, true
+			}
+		}
+		if !drip {
+			if _, ok := w.App.LiquidityKeeper.GetOrder(ctx, w.Dex.Drip.app, w.Dex.Drip.pair, w.Dex.Drip.id); !ok {
+				w.Dex.Drip = okey{}
+			}
+		}
+	}
+	a := w.dexUser(r)
+	gp := w.dexParams(pair.AppId)
+	sameSide := !drip && r.Intn(3) == 0
+	dir := o.Direction
+	if !sameSide {
+		if dir == liqtypes.OrderDirectionBuy {
+			dir = liqtypes.OrderDirectionSell
+		} else {
+			dir = liqtypes.OrderDirectionBuy
+		}
+	}
+	var amt sdk.Int
+	switch {
+	case sameSide: // another order at exactly this tick
+		amt = logAmt(r, sdk.NewInt(100), o.OpenAmount.MulRaw(2).AddRaw(100))
+	case drip || r.Intn(3) == 0: // drip: fill o in many small pieces over several batches (every piece rounds on its own)
+		amt = o.OpenAmount.QuoRaw(r.Range(3, 40)).AddRaw(r.Range(0, 7))
+		if o.OpenAmount.LT(o.Amount) && r.Intn(3) == 0 {
+			amt = o.OpenAmount.AddRaw(r.Range(0, 5)) // the completing piece, after several partial ones
+		}
+		if amt.LT(sdk.NewInt(100)) {
+			amt = sdk.NewInt(r.Range(100, 130))
+		}
+		w.Dex.Drip = okey{pair.AppId, pair.Id, o.Id}
+		w.Stats.Probe("dex.gen.drip")
+	case r.Bool(): // leave a dust remainder of 1..3 units on o
+		amt = o.OpenAmount.SubRaw(r.Range(1, 3))
+	default: // everything at this tick plus a little less than the rest: partial fill of the tick
+		tot := sdk.ZeroInt()
+		for _, x := range live {
+			if x.Direction == o.Direction && x.Price.Equal(o.Price) {
+				tot = tot.Add(x.OpenAmount)
+			}
+		}
+		amt = tot.SubRaw(r.Range(1, 5))
+	}
+	if amt.LT(sdk.NewInt(100)) {
+		return nil
+	}
+	buy := dir == liqtypes.OrderDirectionBuy
+	offerDenom, demandDenom := pair.QuoteCoinDenom, pair.BaseCoinDenom
+	if !buy {
+		offerDenom, demandDenom = pair.BaseCoinDenom, pair.QuoteCoinDenom
+	}
+	need := amm.OfferCoinAmount(amm.Buy, o.Price, amt)
+	if !buy {
+		need = amt
+	}
+	offer := need.Add(feeOn(need, gp)).AddRaw(1)
+	if offer.GT(w.Bal(a.Addr, offerDenom)) {
+		return nil
+	}
+	w.Stats.Probe("dex.gen.cluster")
+	msg := liqtypes.NewMsgLimitOrder(pair.AppId, a.Addr, pair.Id, dir, sdk.NewCoin(offerDenom, offer), demandDenom, o.Price, amt, w.dexLifespan(r, gp))
+	return w.TxEvent("order.limit", a, msg)
+}
+
+// genLadder scripts the life of one long-lived order that is filled piece by piece over several batches by small
+// opposing orders at (or a few ticks inside) its own limit price, ending with a piece that completes it: every piece
+// rounds on its own, so the order's remaining offer coin, not its open amount, is what must bound the last fill.
+// Returns the resting order's placement; the pieces and the block boundaries between them follow as queued events.
+func (w *World) genLadder(r *Rng) *Event {
+	pairs := w.dexPairs()
+	if len(pairs) == 0 {
+		return nil
+	}
+	// prefer a pair without pools (orders rest instead of being absorbed by pool liquidity)
+	ctx := w.Ctx()
+	pair := pairs[r.Intn(len(pairs))]
+	for _, pr := range pairs {
+		if len(w.App.LiquidityKeeper.GetPoolsByPair(ctx, pr.AppId, pr.Id)) == 0 && r.Intn(4) != 0 {
+			pair = pr
+			break
+		}
+	}
+	gp := w.dexParams(pair.AppId)
+	prec := int(gp.TickPrecision)
+	ref := w.dexRefPrice(pair)
+	restBuy := r.Intn(4) != 0
+	var limit sdk.Dec
+	if restBuy {
+		limit = tickDown(ref.Mul(decFrac(r.Range(1000, 1020), 1000)), prec)
+	} else {
+		limit = tickUp(ref.Mul(decFrac(r.Range(980, 1000), 1000)), prec)
+	}
+	if !limit.IsPositive() {
+		return nil
+	}
+	rest := w.dexUser(r)
+	k := int(r.Range(2, 6))
+	var pieces []sdk.Int
+	total := sdk.ZeroInt()
+	small := r.Bool()
+	for i := 0; i < k; i++ {
+		var a sdk.Int
+		if small {
+			a = sdk.NewInt(r.Range(100, 400))
+		} else {
+			a = logAmt(r, sdk.NewInt(100), w.Dex.MagUnit.QuoRaw(1000).AddRaw(1000))
+		}
+		pieces = append(pieces, a)
+		total = total.Add(a)
+	}
+	// the last piece may overshoot what is left by a few units
+	amount := total.SubRaw(r.Range(0, 5))
+	if amount.LT(sdk.NewInt(100)) {
+		return nil
+	}
+	mk := func(a *Actor, buy bool, price sdk.Dec, amt sdk.Int, life time.Duration) *Event {
+		offerDenom, demandDenom := pair.QuoteCoinDenom, pair.BaseCoinDenom
+		dir := liqtypes.OrderDirectionBuy
+		need := amm.OfferCoinAmount(amm.Buy, price, amt)
+		if !buy {
+			offerDenom, demandDenom = pair.BaseCoinDenom, pair.QuoteCoinDenom
+			dir = liqtypes.OrderDirectionSell
+			need = amt
+		}
+		offer := need.Add(feeOn(need, gp)).AddRaw(1)
+		if offer.GT(w.Bal(a.Addr, offerDenom)) {
+			return nil
+		}
+		return w.TxEvent("order.limit", a, liqtypes.NewMsgLimitOrder(pair.AppId, a.Addr, pair.Id, dir, sdk.NewCoin(offerDenom, offer), demandDenom, price, amt, life))
+	}
+	first := mk(rest, restBuy, limit, amount, gp.MaxOrderLifespan)
+	if first == nil {
+		return nil
+	}
+	first.Tag = "order.ladder"
+	// two shapes: every piece in a batch of its own, or one piece (so that the order is carried over, partially
+	// paid) followed by all the others in one batch on neighbouring ticks (several fills of the order in one batch)
+	sameBatch := r.Intn(3) != 0
+	for i, a := range pieces {
+		price := limit
+		if (sameBatch && i > 0) || r.Intn(3) == 0 { // a few ticks inside the resting order's limit
+			for j := int64(0); j < r.Range(0, 3); j++ {
+				if restBuy {
+					price = amm.DownTick(price, prec)
+				} else {
+					price = amm.UpTick(price, prec)
+				}
+			}
+		}
+		var other *Actor
+		for tries := 0; tries < 4; tries++ {
+			other = w.dexUser(r)
+			if other.Idx != rest.Idx {
+				break
+			}
+		}
+		ev := mk(other, !restBuy, price, a, time.Duration(r.Range(0, 3))*time.Second)
+		if ev == nil {
+			continue
+		}
+		ev.Tag = "order.ladder"
+		first.then = append(first.then, ev)
+		if !sameBatch || i == 0 || i == len(pieces)-1 {
+			first.then = append(first.then, &Event{Kind: "block", Tag: "block", GapS: r.Range(1, 3), N: 1})
+		}
+	}
+	w.Stats.Probe("dex.gen.ladder")
+	return first
+}
+
+// genBurst puts several orders of different owners and very different sizes (some tiny) on one tick within one batch
+// - one priority group for the pro-rata distribution - and meets them with an opposing order that fills the tick only
+// partially (a sliver, a third, or all but a few units): shares that truncate to zero, the remainder pass and the
+// re-distribution among the orders that did get a share all run.
+func (w *World) genBurst(r *Rng) *Event {
+	pairs := w.dexPairs()
+	if len(pairs) == 0 {
+		return nil
+	}
+	pair := pairs[r.Intn(len(pairs))]
+	gp := w.dexParams(pair.AppId)
+	prec := int(gp.TickPrecision)
+	ref := w.dexRefPrice(pair)
+	restBuy := r.Bool()
+	var limit sdk.Dec
+	if restBuy {
+		limit = tickDown(ref.Mul(decFrac(r.Range(985, 1000), 1000)), prec)
+	} else {
+		limit = tickUp(ref.Mul(decFrac(r.Range(1000, 1015), 1000)), prec)
+	}
+	if !limit.IsPositive() {
+		return nil
+	}
+	mk := func(a *Actor, buy bool, price sdk.Dec, amt sdk.Int, life time.Duration) *Event {
+		offerDenom, demandDenom := pair.QuoteCoinDenom, pair.BaseCoinDenom
+		dir := liqtypes.OrderDirectionBuy
+		need := amm.OfferCoinAmount(amm.Buy, price, amt)
+		if !buy {
+			offerDenom, demandDenom = pair.BaseCoinDenom, pair.QuoteCoinDenom
+			dir = liqtypes.OrderDirectionSell
+			need = amt
+		}
+		offer := need.Add(feeOn(need, gp)).AddRaw(1)
+		if offer.GT(w.Bal(a.Addr, offerDenom)) {
+			return nil
+		}
+		ev := w.TxEvent("order.limit", a, liqtypes.NewMsgLimitOrder(pair.AppId, a.Addr, pair.Id, dir, sdk.NewCoin(offerDenom, offer), demandDenom, price, amt, life))
+		ev.Tag = "order.burst"
+		return ev
+	}
+	n := int(r.Range(3, 6))
+	var evs []*Event
+	total := sdk.ZeroInt()
+	users := w.Dex.Users
+	start := r.Intn(len(users))
+	for i := 0; i < n; i++ {
+		a := w.Actors[users[(start+i)%len(users)]]
+		var amt sdk.Int
+		switch r.Intn(3) {
+		case 0:
+			amt = sdk.NewInt(r.Range(100, 140))
+		case 1:
+			amt = sdk.NewInt(r.Range(1000, 100000))
+		default:
+			amt = logAmt(r, sdk.NewInt(100), w.Dex.MagUnit.QuoRaw(100).AddRaw(1000))
+		}
+		ev := mk(a, restBuy, limit, amt, gp.MaxOrderLifespan)
+		if ev == nil {
+			continue
+		}
+		evs = append(evs, ev)
+		total = total.Add(amt)
+	}
+	if len(evs) < 2 {
+		return nil
+	}
+	var hit sdk.Int
+	switch r.Intn(4) {
+	case 0:
+		hit = sdk.NewInt(r.Range(100, 160))
+	case 1:
+		hit = total.QuoRaw(r.Range(2, 9)).AddRaw(r.Range(0, 3))
+	case 2:
+		hit = total.SubRaw(r.Range(1, 120))
+	default:
+		hit = total.MulRaw(r.Range(1, 99)).QuoRaw(100)
+	}
+	if hit.LT(sdk.NewInt(100)) {
+		hit = sdk.NewInt(100)
+	}
+	taker := w.Actors[users[(start+n)%len(users)]]
+	if t := mk(taker, !restBuy, limit, hit, time.Duration(r.Range(0, 3))*time.Second); t != nil {
+		evs = append(evs, t)
+	}
+	evs = append(evs, &Event{Kind: "block", Tag: "block", GapS: r.Range(1, 3), N: 1})
+	first := evs[0]
+	first.then = evs[1:]
+	w.Stats.Probe("dex.gen.burst")
+	return first
 }
